@@ -135,13 +135,10 @@ def mentions_node(t):
     return any(x.name in ("TNode", "TFwd") for x in subterms(t))
 
 
-def has_nested_nt_over_node(t, top=True):
-    """D14 shape: a NewType wrapping something that mentions a node class, below the outermost NewType layers."""
-    if t.name == "TNew":
-        if not top and mentions_node(t.args[0]):
-            return True
-        return has_nested_nt_over_node(t.args[0], top)
-    return any(has_nested_nt_over_node(c, False) for c in children(t))
+def has_nt_over_node(t):
+    """D14 shape: a NewType wrapping something that mentions a node class (nested: the field is silently a property;
+    outermost: only the moment of the rejection differs between the code and its repair)."""
+    return any(x.name == "TNew" and mentions_node(x.args[0]) for x in subterms(t))
 
 
 def has_nested_fwd(t, top=True):
@@ -530,7 +527,7 @@ def gen_any_ty(rng, d, node_names, fwd_names, pos="top", under_nt=False):
         if c in ("CMapping", "CDict"):
             return TGen(c, T_STR, gen_any_ty(rng, d - 1, node_names, fwd_names, "arg", under_nt))
         return TGen(c, gen_any_ty(rng, d - 1, node_names, fwd_names, "arg", under_nt))
-    return TNew(gen_any_ty(rng, d - 1, [n for n in node_names if n in EARLY], [], "top", True))
+    return TNew(gen_any_ty(rng, d - 1, [n for n in node_names if n in EARLY], [], "arg", True))
 
 
 REASONS = {"Optional type in sequence": "ROptInSeq", "Mutable sequence": "RMutSeq",
